@@ -113,6 +113,18 @@ class Path(object):
     def stores(self, prefix):
         return [(e[1], e[2], e[3]) for e in self.st.events if e[0] == "store" and e[1].startswith(prefix)]
 
+    def updater_pairs(self):
+        """[(attr, callback_text, object_text)] of updater.add(obj, attr, callback) calls on this path."""
+        out = []
+        for e in self.st.events:
+            if e[0] == "call" and e[1].startswith("updater.add("):
+                args = e[2][1]
+                if len(args) >= 3 and isinstance(args[1], str):
+                    cb = args[2].text if isinstance(args[2], Opaque) else str(args[2])
+                    ob = args[0].text if isinstance(args[0], Opaque) else str(args[0])
+                    out.append((args[1], cb, ob))
+        return out
+
     def updater_attrs(self):
         out = []
         for e in self.st.events:
@@ -169,3 +181,35 @@ def const_subs(consts):
 
 def closed_like(p):
     return p.has("LinkStatus.Closed", True) and p.has("_is_isolated")
+
+
+def check_updaters(chk, rule, fn, bname, paths, required, loc_):
+    """on EVERY path, each required attribute is registered with THIS builder's own update callback on the loop's element."""
+    cls = bname.split(".")[0]
+    ok_all = True
+    for attr in sorted(required):
+        missing = []
+        wrong = []
+        for p in paths:
+            if p.st.raised:
+                continue
+            pairs = [x for x in p.updater_pairs() if x[0] == attr]
+            if not pairs:
+                missing.append(p.label[-60:])
+            for a, cb, ob in pairs:
+                if cb != cls + ".update":
+                    wrong.append(cb)
+        good = not missing and not wrong
+        ok_all = ok_all and good
+        chk.expect(good, rule, "%s re-builds its own entry when %s changes" % (cls, attr), loc_,
+                   "updater.add(<element>, %r, %s.update) must be reached on every path: a different key never matches the change tracker's attribute name, "
+                   "a different callback rebuilds some other dictionary" % (attr, cls),
+                   expected="%s.update registered for %r" % (cls, attr), found="missing on %s; callbacks %s" % (missing[:2], sorted(set(wrong))))
+    # no registration under an attribute name that nothing reports (private spelling of a public attribute)
+    for p in paths:
+        for a, cb, ob in p.updater_pairs():
+            if a.startswith("_") and a not in ("_is_isolated",):
+                chk.bad(rule, "%s registers for the private attribute %s" % (cls, a), loc_,
+                        "control actions report the public attribute name to the change tracker; a private name is never notified", found=a)
+                ok_all = False
+    return ok_all
